@@ -231,6 +231,35 @@ def check_pyval(out):
         except Exception as e:  # noqa: BLE001
             out.failures.append(('from_hex-raises:' + type(e).__name__, 'from_hex(%r) raised %r' % (txt, e), {'component': 'from_hex', 'case': txt}))
         out.evaluations += 1
+    # from_hex with a separator, also ones that are special characters somewhere (regular expressions, format strings, character classes):
+    # the text of a message reads back as that message, any other text raises ValueError and nothing else
+    seps = ['\\', ']', '[', '^', '-', '--', '->', '-]', '.', '*', '+', '(', ')', '$', '?', '{', '}', '|', ' - ', ' | ', ', ', '; ', ' ,', '\\d', '\\s', '[^', '%s', '{}', '::', '\t', 'x', '']
+    msgs = [mido.Message('note_on', channel=3, note=60, velocity=100), mido.Message('sysex', data=[1, 2, 3]), mido.Message('clock'), mido.Message('songpos', pos=300)]
+    for sep in seps:
+        for m in msgs:
+            out.evaluations += 1
+            txt = m.hex(sep)
+            try:
+                back = mido.Message.from_hex(txt, sep=sep)
+                if back != m:
+                    out.failures.append(('from_hex-sep', 'from_hex(%r, sep=%r) gave %r, not %r' % (txt, sep, back, m), {'component': 'from_hex', 'sep': sep}))
+            except Exception as e:  # noqa: BLE001
+                out.failures.append(('from_hex-sep-raises:' + type(e).__name__, 'from_hex(%r, sep=%r) raised %r' % (txt, sep, e), {'component': 'from_hex', 'sep': sep}))
+        for bad in ['zz', '9', '90 1 2', '90' + sep + '1', 'F0' + sep + '01']:
+            out.evaluations += 1
+            try:
+                back = mido.Message.from_hex(bad, sep=sep)
+                clean = bad.replace(sep, ' ') if sep else bad
+                try:
+                    want = list(bytearray.fromhex(clean))
+                except ValueError:
+                    want = None
+                if want is None or back.bytes() != want:
+                    out.failures.append(('from_hex-accepts', 'from_hex(%r, sep=%r) returned %r' % (bad, sep, back), {'component': 'from_hex', 'sep': sep}))
+            except ValueError:
+                pass
+            except Exception as e:  # noqa: BLE001
+                out.failures.append(('from_hex-raises:' + type(e).__name__, 'from_hex(%r, sep=%r) raised %r' % (bad, sep, e), {'component': 'from_hex', 'sep': sep}))
 
 
 def corpus():
